@@ -365,14 +365,23 @@ pub fn build(spec: &ObjSpec, rng: &mut Rng) -> Built {
     }
 
     // ---- ELF header ----
-    let ident = [0x7f, b'E', b'L', b'F', if c64 { 2 } else { 1 }, if enc.big { 2 } else { 1 }, 1, spec.osabi, spec.abiversion, 0, 0, 0, 0, 0, 0, 0];
+    // identity fields nobody chose (still at their defaults) are drawn from the constant pools: no answer of the
+    // crate may depend on them, so every generated file varies them
+    let (mut e_type, mut e_machine, mut osabi, mut abiversion) = (spec.e_type, spec.e_machine, spec.osabi, spec.abiversion);
+    if e_type == 3 && e_machine == 62 && osabi == 0 && abiversion == 0 {
+        e_type = crate::abi_table::pick(rng, "ET_", &[1, 2, 3, 4], 16) as u16;
+        e_machine = crate::abi_table::pick(rng, "EM_", &[3, 40, 62, 183, 243, 8, 20], 16) as u16;
+        osabi = crate::abi_table::pick(rng, "ELFOSABI_", &[0, 3, 9], 8) as u8;
+        abiversion = if rng.chance(3, 4) { 0 } else { rng.next_u64() as u8 };
+    }
+    let ident = [0x7f, b'E', b'L', b'F', if c64 { 2 } else { 1 }, if enc.big { 2 } else { 1 }, 1, osabi, abiversion, 0, 0, 0, 0, 0, 0, 0];
     bytes[..16].copy_from_slice(&ident);
     for (i, n) in ["EI_MAG0", "EI_MAG1", "EI_MAG2", "EI_MAG3", "EI_CLASS", "EI_DATA", "EI_VERSION", "EI_OSABI", "EI_ABIVERSION"].iter().enumerate() {
         fields.push(Field { off: i, w: 1, name: format!("ident.{n}") });
     }
     let mut eh = Rec::zero(St::EhdrTail, c64);
-    eh.set("e_type", spec.e_type as u64)
-        .set("e_machine", spec.e_machine as u64)
+    eh.set("e_type", e_type as u64)
+        .set("e_machine", e_machine as u64)
         .set("e_version", 1)
         .set("e_entry", spec.e_entry)
         .set("e_phoff", if spec.has_phdrs { phoff as u64 } else { 0 })
